@@ -35,3 +35,12 @@ Theorem C08_instrumented_batch_is_the_batch : forall d author ts edits orc,
   fst (apply_edits_x d author ts edits orc) = apply_edits d author ts edits orc.
 Proof. exact apply_edits_x_fst. Qed.
 Print Assumptions C08_instrumented_batch_is_the_batch.
+
+(* text that is already marked deleted is not edited again: a located range covering a deleted span is skipped and the state is
+   untouched (the rule the matcher's exact stage anticipates by passing over such occurrences, fix D55) *)
+Theorem C08_deleted_text_not_edited : forall (s : est) (uc : bool) (st ml : nat) (nw cm : str),
+  let sp : list ospan := if uc then match s_clean s with Some c => c | None => [] end else s_raw s in
+  existsb (fun x => is_some_nonempty (o_del x)) (filter (fun x => o_real x && (st <? o_end x) && (o_start x <? st + ml)) sp) = true ->
+  apply_located s uc st ml nw cm = (s, Skipped).
+Proof. exact apply_located_deleted. Qed.
+Print Assumptions C08_deleted_text_not_edited.
